@@ -76,7 +76,7 @@ def cases(tier, seed):
     for K in b["alphabets"]:
         for p, U in al.knotvectors(K, b["pmax"], b["kmax"]):
             yield ("integral", K, p, U, 0)
-    for i in range(len(POLYLINES)):
+    for i in range(len(POLYLINES) + len(JUMPS)):
         yield ("length", i, 0, 0, 0)
 
 
@@ -95,6 +95,12 @@ for _n, _kn in ((2, [0, 1, 3]), (3, [0, F(1, 2), 1, 4]), (4, [-1, 0, 2, 3, 7]), 
         _pts = [_g[i] for i in _perm]
         POLYLINES.append((_kn, _pts))
 POLYLINES = POLYLINES[::7]
+# degree-1 curves that jump at a double knot: (knot vector, vertices, exact length without the jump)
+JUMPS = [
+    ([0, 0, 1, 1, 3, 3], [(0, 0), (3, 4), (10, 0), (10, 5)]),
+    ([0, 0, 1, 2, 2, 3, 5, 5], [(0, 0), (3, 4), (3, 0), (-5, 12), (-5, 0), (0, 0)]),
+    ([0.0, 0.0, 0.5, 0.5, 1.0, 1.0], [(0, 0), (6, 8), (0, 4), (3, 0)]),
+]
 
 
 def run_case(case, res):
@@ -275,10 +281,17 @@ def run_integral(case, res):
 
 
 def run_length(case, res):
-    kn, pts = POLYLINES[case[1]]
-    U = [kn[0]] + list(kn) + [kn[-1]]
-    expect = sum(math.dist(a, b) for a, b in zip(pts[:-1], pts[1:]))
-    res.state(("polyline", tuple(map(str, kn)), tuple(pts)))
+    if case[1] >= len(POLYLINES):
+        U, pts = JUMPS[case[1] - len(POLYLINES)]
+        kn = sorted(set(U))
+        Ue = [lib.to_frac(k) for k in U]
+        # segment i joins control points i, i+1 unless they sit on both sides of a double knot (a jump)
+        expect = sum(math.dist(pts[i], pts[i + 1]) for i in range(len(pts) - 1) if Ue[i + 1] != Ue[i + 2])
+    else:
+        kn, pts = POLYLINES[case[1]]
+        U = [kn[0]] + list(kn) + [kn[-1]]
+        expect = sum(math.dist(a, b) for a, b in zip(pts[:-1], pts[1:]))
+    res.state(("polyline", tuple(map(str, U)), tuple(pts)))
     isfloat = any(isinstance(k, float) for k in kn)
     c = lib.Curve(U, lib.np.array(pts, dtype="float64" if isfloat else "int64"))
     for meth in (None,) + tuple(METHODS.values()):
